@@ -10,7 +10,8 @@ RULE = ("the full matrix server certificate {trusted+matching (with and without 
 EXPLANATION = ("Props/C05.v is the decision table over the derived tls.Config (verification stays on unless insecure; client certificates "
                "required as configured); x509/TLS are represented by their acceptance conditions. Every cell of the finite matrix is "
                "run against the real code and must have the outcome the model predicts and the property demands.")
-TRUSTED = ["crypto/tls and crypto/x509 (hypotheses: a peer is accepted iff the documented conditions on the two tls.Configs hold)",
+TRUSTED = ["the harness process's system trust store (SSL_CERT_FILE) holds exactly the foreign CA: 'untrusted' means trusted by the host but not configured",
+           "crypto/tls and crypto/x509 (hypotheses: a peer is accepted iff the documented conditions on the two tls.Configs hold)",
            "kcp-go's AES block cipher with its checksum: packets under a different key are dropped (hypothesis behind secret_admits)",
            "StartTLS over the DNS carrier is not in the matrix of this check (the DNS carrier is exercised in C07/C11)"]
 EXHAUSTIVE = True
@@ -34,6 +35,10 @@ def cases(tier, rng):
                                 continue
                             line = "c05 %s %s %d %s %d %d" % (k, sc, ins, cc, req, must)
                             cs.append({"line": line, "key": line, "tags": {"carrier": k, "scert": sc, "ins": ins, "ccert": cc, "req": req, "must": must}})
+    # one configuration object serving two upstreams in a row (fall-back list, reconnect): each is verified against its own host name
+    for order in (0, 1):
+        line = "c05two %d" % order
+        cs.append({"line": line, "key": line, "model": False, "tags": {"carrier": "two-upstreams", "order": order}})
     # a UDP endpoint protected by a shared secret: equal and different secrets, one side without
     secrets = ["none", "abc", "abd", "ABC", "ab", "abcd", "p%40ss%3Aword", "x" * 40]
     if tier == "thorough":
@@ -54,6 +59,11 @@ def oracle(case, impl):
     p = impl.split()
     if not p or p[0] in ("panic", "died", "timeout", "harness-error"):
         return [("crash", "cell crashed: %s -> %s" % (case["line"], impl[:100]))]
+    if t["carrier"] == "two-upstreams":
+        if p != ["A", "ok", "B", "err"]:
+            return [("host-name-not-per-upstream", "the certificate names localhost only: tcp+tls://localhost must be accepted and tcp+tls://127.0.0.1 refused, in "
+                     "either order with one configuration object; got " + impl)]
+        return []
     if t["carrier"] == "udp-secret":
         same = t["ssecret"] == t["csecret"]
         est = p[:2] == ["connect", "ok"]
